@@ -89,12 +89,14 @@ type T struct {
 	res        workerResult
 	lastFlush  time.Time
 	lastTick   time.Time
+	seq        int64
 	stopped    bool
 	mu         sync.Mutex
 	replayHit  bool
 }
 
 type violation struct {
+	Seq       int64       `json:"seq"` // position in the enumeration (simplest first)
 	Key       string      `json:"key"`
 	Violation string      `json:"violation"`
 	Detail    interface{} `json:"detail,omitempty"`
@@ -117,6 +119,16 @@ type workerResult struct {
 func (t *T) Tier() string    { return t.tier }
 func (t *T) Thorough() bool  { return t.tier == "thorough" }
 func (t *T) Stopped() bool   { return t.stopped }
+
+// Progress tells the parent that this worker is alive (use inside long single cases or long
+// pre-computations so that the hang guard does not fire).
+func (t *T) Progress() {
+	if time.Since(t.lastFlush) > time.Second {
+		t.lastFlush = time.Now()
+		fmt.Fprintf(t.out, "P \"\"\n")
+		t.out.Flush()
+	}
+}
 
 // Note records a free-text remark that ends up in the evidence file (e.g. a cap that was hit).
 func (t *T) Note(s string) {
@@ -142,6 +154,7 @@ func (t *T) Owns(key string) bool {
 
 // Case hands one case of the enumeration to the framework. fn runs only in the owning worker.
 func (t *T) Case(key string, fn func() *Outcome) {
+	t.seq++
 	if t.stopped {
 		return
 	}
@@ -201,7 +214,7 @@ func (t *T) Case(key string, fn func() *Outcome) {
 		} else {
 			t.res.NViol++
 			if len(t.res.Violations) < 20 {
-				t.res.Violations = append(t.res.Violations, violation{key, o.Violation, o.Detail})
+				t.res.Violations = append(t.res.Violations, violation{t.seq, key, o.Violation, o.Detail})
 			}
 		}
 	}
@@ -599,7 +612,7 @@ func parentMain(spec *Spec, tier string) int {
 				mu.Lock()
 				if confirmed == 2 {
 					total.NViol++
-					total.Violations = append(total.Violations, violation{lastKey, "process died or hung while executing this case: " + err2.Error() + "\n" + lastLines(errTail2, 12), nil})
+					total.Violations = append(total.Violations, violation{0, lastKey, "process died or hung while executing this case: " + err2.Error() + "\n" + lastLines(errTail2, 12), nil})
 				} else {
 					total.Notes = append(total.Notes, "worker death not reproducible on case alone, not reported: "+lastKey)
 				}
@@ -652,7 +665,12 @@ func finish(spec *Spec, tier string, seed int64, total *workerResult, t0 time.Ti
 	dir := VerifDir()
 	os.MkdirAll(filepath.Join(dir, "evidence"), 0o755)
 	os.MkdirAll(filepath.Join(dir, "replays"), 0o755)
-	sort.Slice(total.Violations, func(i, j int) bool { return total.Violations[i].Key < total.Violations[j].Key })
+	sort.Slice(total.Violations, func(i, j int) bool {
+		if total.Violations[i].Seq != total.Violations[j].Seq {
+			return total.Violations[i].Seq < total.Violations[j].Seq
+		}
+		return total.Violations[i].Key < total.Violations[j].Key
+	})
 	exhaustive := !total.TimedOut
 	cov := map[string]interface{}{
 		"evaluations":         total.Evaluations,
@@ -679,6 +697,21 @@ func finish(spec *Spec, tier string, seed int64, total *workerResult, t0 time.Ti
 	}
 	if len(total.Classes) > 0 && len(total.Classes) <= 40 {
 		cov["outcome_classes"] = total.Classes
+	} else if len(total.Classes) > 40 {
+		type kv struct {
+			k string
+			v int64
+		}
+		var all []kv
+		for k, v := range total.Classes {
+			all = append(all, kv{k, v})
+		}
+		sort.Slice(all, func(i, j int) bool { return all[i].v > all[j].v || (all[i].v == all[j].v && all[i].k < all[j].k) })
+		top := map[string]int64{}
+		for _, e := range all[:40] {
+			top[e.k] = e.v
+		}
+		cov["outcome_classes_top40"] = top
 	}
 	if total.TimedOut {
 		cov["cap_hit"] = fmt.Sprintf("internal deadline of %s reached; cases are enumerated in a fixed order, simplest first, and everything before the cut was covered", deadlineFor(spec, tier))
